@@ -1,4 +1,4 @@
-// h_junk.cpp - independence of every observable result from the content of uninitialised heap memory (modes C06junk, C09junk, C14junk, C15junk, C17junk).
+// h_junk.cpp - independence of every observable result from the content of uninitialised heap memory (modes C06junk, C07junk, C09junk, C14junk, C15junk, C17junk).
 // ASan/UBSan do not see reads of uninitialised memory, MemorySanitizer needs every dependency instrumented, and memcheck drowns in cfitsio's scans of fresh
 // buffers. This monitor decides the same question by intervention instead: malloc/realloc are defined in the harness executable (libstdc++, cfitsio, CHOLMOD
 // and the C fitter reach them through the PLT) and fill every fresh byte - new blocks and the grown tail of reallocated ones - with a chosen pattern while a
@@ -182,6 +182,44 @@ static void run_fit_case(const Args &a, long cs) {
 	if (cs % 40 == 0) sample(cj);
 }
 
+// ---------------------------------------------------------------- C07junk: hostile bytes. Whether a damaged file is accepted, and what it loads as, must not depend on the heap either
+static void run_hostile_case(const Args &a, long cs) {
+	Rng r(a.seed, "C07junk", cs);
+	GenOpts g; g.min_dim = 1; g.max_dim = 4; g.max_coef = 1500; g.max_block = 256; g.mag_exp_max = 3; g.extra_knots_max = 4;
+	Spec s = gen_spec(r, g); s.has_extents = !r.coin(0.3); if (!s.has_extents) s.extents.clear(); if (r.coin(0.5)) for (int d = 0; d < s.ndim(); d++) s.periods.push_back(0.5 * d);
+	int naux = (int)r.below(5); for (int i = 0; i < naux; i++) s.aux.push_back({"KEY" + std::to_string(i), "text " + std::to_string(i)});
+	Bytes fb = mkfits(s); std::vector<unsigned char> m((unsigned char *)fb.p, (unsigned char *)fb.p + fb.n); free(fb.p);
+	// damage: truncation (anywhere / at a card / at a block), byte flips in the headers or anywhere, a card overwritten with another card of the file, an integer field of a card replaced
+	int kind = (int)r.below(6); std::string kn;
+	switch (kind) {
+	case 0: m.resize(r.below(m.size() + 1)); kn = "truncated-anywhere"; break;
+	case 1: m.resize(std::min(m.size(), (size_t)(80 * r.below(m.size() / 80 + 1)))); kn = "truncated-at-a-card"; break;
+	case 2: { int nf = 1 + (int)r.below(6); for (int i = 0; i < nf; i++) m[r.below(m.size())] ^= (unsigned char)(1u << r.below(8)); kn = "bit-flips"; break; }
+	case 3: { int nf = 1 + (int)r.below(4); for (int i = 0; i < nf; i++) { size_t c = r.below(std::min<size_t>(m.size() / 80, 36)); m[c * 80 + r.below(80)] = (unsigned char)(32 + r.below(95)); } kn = "characters-in-the-primary-header"; break; }
+	case 4: { size_t nc = m.size() / 80, a0 = r.below(std::min<size_t>(nc, 36)), b0 = r.below(nc); memmove(&m[a0 * 80], &m[b0 * 80], 80); kn = "card-overwritten-by-another-card"; break; }
+	default: { size_t c = r.below(std::min<size_t>(m.size() / 80, 20)); static const char *vals[] = {"0", "-1", "1", "2", "7", "64", "-32", "-64", "99999", "2147483647", "4294967297"}; std::string v = vals[r.below(11)]; std::string f(20, ' '); f.replace(20 - v.size(), v.size(), v); memcpy(&m[c * 80 + 10], f.data(), 20); kn = "integer-field-replaced"; break; }
+	}
+	Spec other = gen_spec(r, g); Bytes ob = mkfits(other); g_stale = (const unsigned char *)ob.p; g_stale_n = ob.n;
+	std::string cj = "{\"mode\":\"C07junk\",\"damage\":" + jstr(kn) + ",\"bytes\":" + std::to_string(m.size()) + ",\"table\":" + s.brief() + "}"; context(cj); count("cases"); count("damage:" + kn);
+	std::string path = g_tmp + "/junk_h." + std::to_string(getpid()) + ".fits"; write_file(path, m.data(), m.size()); int entry = (int)r.below(2);
+	std::vector<Obs> runs; long fb0 = g_filled_blocks; uint64_t pseed = a.seed * 6151 + (uint64_t)cs;
+	for (int pat = 0; pat < NJUNK; pat++) {
+		phase_log(std::string("read with heap pattern ") + junk_name(pat)); Obs o; Rng rp(pseed, "junkpoints", 2); std::vector<unsigned char> cp = m; // exact copy per run: the reader must not write to its input either
+		std::unique_ptr<Table> T; bool threw = false; { Junk j(pat); T.reset(new Table); try { if (entry == 0) T->read_fits_mem(cp.data(), cp.size()); else T->read_fits(path); } catch (std::exception &) { threw = true; } }
+		o.push_back({"read:refused", (uint64_t)threw}); o.push_back({"input-buffer-unchanged", (uint64_t)(cp == m)});
+		if (!threw) { bool fin = true; for (unsigned d = 0; d < T->get_ndim() && fin; d++) for (uint64_t i = 0; i < T->get_nknots(d); i++) if (!std::isfinite(T->get_knot(d, i))) fin = false; if (fin) observe_table(*T, o, rp); else o.push_back({"accepted-with-non-finite-knots", 1});
+			bool finc = true; for (uint64_t i = 0; i < T->get_ncoeffs(); i++) if (!std::isfinite(T->get_coefficients()[i])) finc = false; std::pair<void *, size_t> w(nullptr, 0); bool wt = false; { Junk j(pat); try { w = T->write_fits_mem(); } catch (std::exception &) { wt = true; } } o.push_back({"rewrite:threw", (uint64_t)wt}); if (!wt) { o.push_back({"rewrite:meaning", fits_meaning_digest(w.first, w.second)}); free(w.first); } (void)finc; }
+		else { o.push_back({"table-empty-after-refused-read", (uint64_t)(T->get_ndim() == 0 && T->get_naux_values() == 0)}); }
+		{ Junk j(pat); T.reset(); }
+		if (pat == 0) count(threw ? "reads-refused" : "reads-accepted");
+		runs.push_back(o);
+	}
+	count("fresh-blocks-filled", g_filled_blocks - fb0);
+	judge("C07", entry == 0 ? "read_fits_mem" : "read_fits", runs, cj); distinct(hash_mix(bytes_digest(m.data(), m.size()), entry));
+	g_stale = nullptr; g_stale_n = 0; free(ob.p); unlink(path.c_str());
+	if (cs % 60 == 0) sample(cj);
+}
+
 int main(int argc, char **argv) {
 	Args a = parse_args(argc, argv);
 	open_out(a.outpath);
@@ -190,6 +228,7 @@ int main(int argc, char **argv) {
 		begin_case(cs);
 		std::string m = a.prop; prop_id() = m.substr(0, 3);
 		if (m == "C09junk") run_fit_case(a, cs);
+		else if (m == "C07junk") run_hostile_case(a, cs);
 		else if (m == "C06junk" || m == "C14junk" || m == "C15junk" || m == "C17junk") run_table_case(a, cs, m);
 		else { fprintf(stderr, "unknown mode %s\n", m.c_str()); return 2; }
 	}
